@@ -16,16 +16,20 @@ ASSUMPTIONS = ["allocation succeeds (C08)", "C locale in effect inside the call 
 TRUSTED = ["Spec/Rfc8259.lean is the RFC 8259 grammar (by inspection)", "glibc strtod is correctly rounding on the generated decimals "
            "(compared with the exact Lean reference on every number)"]
 MANIFEST = dict(
-    text="Specification: Spec/Rfc8259.lean - RFC 8259 as an inductive type `Doc` with `text`, `denote` (surrogate pairs combined, unpaired -> U+FFFD, "
-         "members first-occurrence order/last value, integers exact with 64-bit saturation, non-integers = exact round-to-nearest-even of the decimal), "
-         "`nest`. Proved so far on the byte-driven tokener model (Props/C01.lean): the per-token theorems of `parse_valid` - whitespace runs, the three "
-         "literals, and every string (all eight escapes, every \\\\uXXXX unit, the surrogate automaton for every pair of units) decode to exactly "
-         "`decodeItems`, in default and strict mode, from any enclosing stack. The full induction over nested documents (`parse_valid`) is stated "
-         "(ParseValidStatement) and not yet proved; until then that part is decided by the differential run only: thousands of grammar-generated texts "
-         "per run compared three ways (implementation = model = Lean specification).",
-    note="Trusted: Lean kernel + propext/Classical.choice/Quot.sound; Spec/Rfc8259.lean as the reading of RFC 8259; Libc/Dbl.lean strtod reference (validated "
-         "against glibc on every run); harness/tok.c + Driver/Tok.lean. Member names containing U+0000 are cut at the NUL (keys are C strings): known finding.",
-    technique="Lean 4 proof (per-token refinement lemmas against an RFC 8259 grammar datatype; full induction pending) + three-way correspondence run",
+    text="Specification: Spec/Rfc8259.lean - RFC 8259 as an inductive type `Doc` (white space explicit at every position) with `text`, `denote` "
+         "(surrogate pairs combined, unpaired -> U+FFFD, members first-occurrence order/last value, integers exact with 64-bit saturation, "
+         "non-integers = exact round-to-nearest-even of the decimal), `nest`. Theorem `parse_valid` (Props/C01.lean), proved by induction over `Doc` "
+         "on the byte-driven tokener model with no bound on size or depth: for a tokener created with any depth limit and flags 0 or STRICT, and EVERY "
+         "text `ws value ws` whose nesting fits the limit (member names free of U+0000; in strict mode integers within 64 bits), the call on the "
+         "NUL-terminated text succeeds, returns exactly `denote`, reports the text length as end position, and no step is undefined. "
+         "`strict_rejects_wide_integer`: strict mode answers 'number expected' for an integer outside 64 bits; default-mode saturation is `parse_valid` "
+         "at flags 0. Each run re-checks the theorems against the constants/structure regenerated from /repo, and compares implementation = model = "
+         "specification on thousands of grammar-generated texts (thorough: all 65536 \\uXXXX units, surrogate grid, integer lattice).",
+    note="Trusted: Lean kernel + propext/Classical.choice/Quot.sound; Spec/Rfc8259.lean as the reading of RFC 8259; hypothesis LibcSpec (strtoll/strtoull "
+         "exact with ERANGE saturation, strtod correctly rounded and consuming the whole number) - compared with glibc on every generated number; "
+         "harness/tok.c + Driver/Tok.lean; allocation succeeds (C08). Member names containing U+0000 are cut at the NUL (keys are C strings): known finding, "
+         "excluded from the theorem by `keysNulFree`.",
+    technique="Lean 4 proof (refinement of an RFC 8259 grammar datatype by the tokener machine, induction over documents) + three-way correspondence run",
     design="6/C01")
 KNOWN = [dict(property="C01", id="C01-nul-in-member-name", tag="tok.key.nul-truncated", site="json_tokener.c: obj_field_name = strdup(tok->pb->buf)",
               witness='{"a\\u0000b":1,"a\\u0000c":2}', description="a member name containing an escaped U+0000 is cut at the NUL (json-c keys are C strings): "
